@@ -48,6 +48,17 @@ func newEnv() (*env, error) {
 	}
 	e.work = getenv("VERIF_WORK", filepath.Join(e.verif, ".work"))
 	e.scratch = filepath.Join(e.work, fmt.Sprintf("gen_%d", os.Getpid()))
+	// scratch directories of harness processes that were killed before their cleanup ran
+	if ents, err := os.ReadDir(e.work); err == nil {
+		for _, ent := range ents {
+			var pid int
+			if n, _ := fmt.Sscanf(ent.Name(), "gen_%d", &pid); n == 1 && ent.IsDir() {
+				if _, err := os.Stat(fmt.Sprintf("/proc/%d", pid)); os.IsNotExist(err) {
+					os.RemoveAll(filepath.Join(e.work, ent.Name()))
+				}
+			}
+		}
+	}
 	if err := os.MkdirAll(e.scratch, 0o755); err != nil {
 		return nil, err
 	}
